@@ -227,6 +227,34 @@ Proof.
   induction ops as [|o r IH]; intros s Hs; simpl; [exact Hs|]. apply IH. now apply Inv_step.
 Qed.
 
+(* ---- a decision names a device that had been announced when it was made *)
+Definition DecInv (s : st) : Prop :=
+  forall d v, In (d, v) (s_decisions s) -> exists dv, In dv (s_devices s) /\ dv_id dv = d.
+
+Lemma DecInv_step s o : DecInv s -> DecInv (fst (step s o)).
+Proof.
+  intros Hs. unfold CodeFlow.step.
+  destruct o as [c0 rd sc ch mt ap|code c0 rd vf|c0 cp sc|dev user approve|dev c0|dt];
+    repeat match goal with
+           | |- DecInv (fst (match ?x with _ => _ end)) => destruct x eqn:?
+           | |- DecInv (fst (if ?x then _ else _)) => destruct x eqn:?
+           | |- DecInv (fst (let '(_, _) := ?x in _)) => destruct x eqn:?
+           end; try exact Hs; cbn [fst]; unfold DecInv in *;
+    cbn [s_codes s_issued s_devices s_decisions s_tokens s_now s_next]; try exact Hs.
+  all: intros d0 v0 Hin.
+  all: try (destruct (Hs d0 v0 Hin) as [dv [A B]]; exists dv; split; [right; exact A|exact B]).
+  all: try (destruct Hin as [Hin|Hin];
+            [inversion Hin; subst;
+             match goal with H : find_dev _ _ = Some ?x |- _ => exists x; now apply find_dev_In end
+            |exact (Hs d0 v0 Hin)]).
+Qed.
+
+Theorem DecInv_run ops : DecInv (run ops).
+Proof.
+  unfold CodeFlow.run. assert (H0 : DecInv init) by (intros d v []). revert H0. generalize init.
+  induction ops as [|o r IH]; intros s Hs; simpl; [exact Hs|]. apply IH. now apply DecInv_step.
+Qed.
+
 (* ---- PKCE: success means a well-formed verifier whose transform equals the challenge *)
 Definition transform (m : option string) (v : string) : option string :=
   match m with
